@@ -17,6 +17,10 @@ pub struct C15;
 pub enum Ev {
     Reg { op: u64, node: usize },
     Ack { op: u64, node: usize },
+    /// the member leaves the cluster (`remove_cluster_member`): either nothing changes for the pending
+    /// operations, or the member's registrations are dropped together with whatever it had acknowledged --
+    /// an operation that another member has not acknowledged stays pending either way
+    Leave { node: usize },
 }
 
 #[derive(Clone, Debug, Serialize, Deserialize, PartialEq)]
@@ -60,6 +64,11 @@ fn gen_unit(rng: &mut Rng) -> Program {
         let t = rng.below(nt as u64) as usize;
         let pos = rng.below(tasks[t].len() as u64 + 1) as usize;
         tasks[t].insert(pos, Ev::Ack { op: rng.range(1, nops + 1), node: rng.below(3) as usize });
+    }
+    if rng.chance(1, 3) {
+        let t = rng.below(nt as u64) as usize;
+        let pos = rng.below(tasks[t].len() as u64 + 1) as usize;
+        tasks[t].insert(pos, Ev::Leave { node: rng.below(3) as usize });
     }
     for t in tasks.iter_mut() {
         // keep per-task order but shuffle lightly
@@ -148,6 +157,17 @@ impl Model {
                 }
                 Some(r)
             }
+            Ev::Leave { .. } => None,
+        }
+    }
+    /// the other legal meaning of a leave: the member's registrations (and its acknowledgements) are dropped
+    fn apply_leave_releasing(&mut self, node: usize) {
+        let ops: Vec<u64> = self.ops.keys().cloned().collect();
+        for op in ops {
+            let m = self.ops.get_mut(&op).unwrap();
+            if m.remove(&node).is_some() && (m.is_empty() || m.values().all(|x| *x)) {
+                self.ops.remove(&op);
+            }
         }
     }
     fn state(&self, op: u64) -> Option<OpState> {
@@ -173,6 +193,13 @@ fn explain(recs: &[&Rec], used: u32, m: &Model, finals: &BTreeMap<u64, Option<Op
         }
         if explain(recs, used | (1 << i), &m2, finals) {
             return true;
+        }
+        if let Ev::Leave { node } = &recs[i].ev {
+            let mut m3 = m.clone();
+            m3.apply_leave_releasing(*node);
+            if explain(recs, used | (1 << i), &m3, finals) {
+                return true;
+            }
         }
     }
     false
@@ -205,6 +232,10 @@ fn execute_unit(prog: Program) -> Outcome {
                         None
                     }
                     Ev::Ack { op, node } => Some(dbs.acknowledge_pending_opp(*op, &NODES[*node].to_string())),
+                    Ev::Leave { node } => {
+                        dbs.remove_cluster_member(&NODES[*node].to_string());
+                        None
+                    }
                 };
                 let ret = seq.fetch_add(1, Ordering::SeqCst);
                 recs.lock().unwrap().push(Rec { ev, invoke, ret, result });
@@ -215,8 +246,9 @@ fn execute_unit(prog: Program) -> Outcome {
         let _ = h.join();
     }
     out.recs = recs.lock().unwrap().clone();
-    let ops: BTreeSet<u64> = out.recs.iter().map(|r| match r.ev {
-        Ev::Reg { op, .. } | Ev::Ack { op, .. } => op,
+    let ops: BTreeSet<u64> = out.recs.iter().filter_map(|r| match r.ev {
+        Ev::Reg { op, .. } | Ev::Ack { op, .. } => Some(op),
+        Ev::Leave { .. } => None,
     }).collect();
     for op in ops {
         out.finals.insert(op, observe(&dbs, op));
@@ -247,6 +279,7 @@ fn execute_unit(prog: Program) -> Outcome {
             .map(|r| match r.ev {
                 Ev::Reg { .. } => "register",
                 Ev::Ack { .. } => "ack",
+                Ev::Leave { .. } => "leave",
             })
             .collect();
         out.violations.push(Violation::new(
